@@ -326,10 +326,10 @@ def heap_walks(m):
             continue
         cx = None
         for x in walk(f.body):
-            if x["kind"] not in ("ForStmt", "WhileStmt"):
+            if x["kind"] not in ("ForStmt", "WhileStmt", "DoStmt") or is_assert_stmt(x):
                 continue
             ch = kids(x)
-            body = ch[4] if x["kind"] == "ForStmt" else ch[1]
+            body = ch[4] if x["kind"] == "ForStmt" else ch[1] if x["kind"] == "WhileStmt" else ch[0]
             cx = cx or FuncCtx(m, f)
             lvars = set()
             for part in ch:
@@ -359,9 +359,149 @@ def heap_walks(m):
                         mm = re.search(r"&?\(?(\w[\w>.-]*?)(->|\.)heap\b", cx.canon(kids(d)[0]))
                         if mm:
                             H = mm.group(1) if mm.group(2) == "->" else "&" + mm.group(1)
+            if H is None:
+                # a tag pointer advanced by the loop, declared anywhere with an initialiser inside some heap array
+                for d in walk(f.body):
+                    if d["kind"] == "VarDecl" and d.get("name") in lvars and "cmi_heap_tag" in (d.get("type") or "") and \
+                            "*" in (d.get("type") or "") and kids(d):
+                        mm = re.search(r"&?\(?(\w[\w>.-]*?)(->|\.)heap\b", cx.canon(kids(d)[0]))
+                        if mm and any(y["kind"] == "DeclRefExpr" and y["ref"]["name"] == d["name"] for y in walk(body)):
+                            H = mm.group(1) if mm.group(2) == "->" else "&" + mm.group(1)
             if H is not None:
                 out.append((f, x, H.lstrip("(")))
     return out
+
+
+def scan_range_general(m, f, loop, H):
+    """(first, last, step) for loops of any kind: the slot cursor (an index into the heap array or a tag pointer) and the
+    number of rounds are read off the loop's induction variables - the rounds may be counted by another variable than
+    the cursor (a count-down counter).  Raises AnalysisBroken when not understood."""
+    from ..engines.induct import Poly
+    from .. import inv
+    cx = FuncCtx(m, f)
+    ivars, guard = inv.induction_vars(cx, f, loop, allow_conjunct=True)      # a search may also stop on "found"
+    gnode = inv.induction_vars.last_guard_node
+    body = kids(loop)[0] if loop["kind"] == "DoStmt" else kids(loop)[-1]
+
+    inside = {id(y) for y in walk(loop)}
+
+    def decl_of(nm):
+        # the declaration that is in force when the loop is entered: outside the loop (a same-named copy made for an
+        # inlined helper inside the body is another object), or in the for-initialiser
+        found = None
+        for d in walk(f.body):
+            if d["kind"] == "VarDecl" and d.get("name") == nm and kids(d):
+                if id(d) in inside and not (loop["kind"] == "ForStmt" and any(y is d for y in walk(kids(loop)[0]))):
+                    continue
+                found = d
+        return found
+
+    def off(n, depth=0):
+        n = strip(n, casts=True)
+        k = n["kind"]
+        if k == "IntegerLiteral":
+            return Poly.const(int(n["value"]))
+        c = cx.canon(n)
+        if c.endswith("heap_count") and ("heap" in c):
+            return Poly.sym("N")
+        if k == "DeclRefExpr":
+            d = cx.single_def(n["ref"]["id"])
+            if d is not None and depth < 6:
+                return off(d, depth + 1)
+            if n["ref"]["name"] in ivars and depth < 6:
+                # used in an expression evaluated before the loop starts: the variable still has its entry value
+                dd = decl_of(n["ref"]["name"])
+                return off(kids(dd)[0], depth + 1) if dd is not None else None
+            return None
+        if k == "MemberExpr" and n.get("name") == "heap":
+            return Poly()
+        if k == "UnaryOperator" and n.get("opcode") == "&":
+            a = strip(kids(n)[0], casts=True)
+            if a["kind"] == "ArraySubscriptExpr":
+                b, i = off(kids(a)[0], depth + 1), off(kids(a)[1], depth + 1)
+                return None if b is None or i is None else b + i
+            return None
+        if k == "BinaryOperator" and n.get("opcode") in ("+", "-"):
+            a, b = off(kids(n)[0], depth + 1), off(kids(n)[1], depth + 1)
+            if a is None or b is None:
+                return None
+            return a + b if n["opcode"] == "+" else a - b
+        return None
+    # the cursor: an induction variable used to subscript the heap array, or a tag pointer dereferenced in the body
+    cursor = None
+    for y in walk(body):
+        if y["kind"] == "ArraySubscriptExpr" and re.fullmatch(r"(.+?)(->|\.)heap", cx.canon(kids(y)[0]) or ""):
+            i = strip(kids(y)[1], casts=True)
+            if i["kind"] == "DeclRefExpr" and i["ref"]["name"] in ivars:
+                cursor = i["ref"]["name"]
+        if y["kind"] == "DeclRefExpr" and y["ref"]["name"] in ivars and "cmi_heap_tag" in (y.get("type") or "") and "*" in (y.get("type") or ""):
+            cursor = cursor or y["ref"]["name"]
+    if cursor is None or guard is None:
+        raise AnalysisBroken("%s: heap scan without a recognisable slot cursor / guard" % f.name)
+    cd = decl_of(cursor)
+    if cd is None:
+        raise AnalysisBroken("%s: the slot cursor '%s' has no initial value" % (f.name, cursor))
+    first = off(kids(cd)[0])
+    step = ivars[cursor][1]
+    if first is None or step not in (1, -1):
+        raise AnalysisBroken("%s: heap scan cursor '%s' starts at %s with step %s" % (f.name, cursor, render(kids(cd)[0]), step))
+    gname, op, bound = guard
+    one = Poly.const(1)
+    if gname == cursor:
+        # bound as an AST node: take it from the loop condition
+        c0 = gnode
+        a_, b_ = strip(kids(c0)[0], casts=True), strip(kids(c0)[1], casts=True)
+        bn = b_ if (a_["kind"] == "DeclRefExpr" and a_["ref"]["name"] == cursor) else a_
+        bp = off(bn)
+        if bp is None:
+            raise AnalysisBroken("%s: heap scan bound %s not understood" % (f.name, render(bn)))
+        if step == 1 and op in ("<", "!="):
+            last = bp - one
+        elif step == 1 and op == "<=":
+            last = bp
+        elif step == -1 and op in (">", "!="):
+            last = bp + one
+        elif step == -1 and op == ">=":
+            last = bp
+        else:
+            raise AnalysisBroken("%s: heap scan guard with step %d not understood" % (f.name, step))
+        return first, last, step
+    # rounds counted by another variable
+    gd = decl_of(gname)
+    g_entry = off(kids(gd)[0]) if gd is not None else None
+    gstep = ivars[gname][1]
+    trips = None
+    try:
+        bval = int(bound)
+    except ValueError:
+        bval = None
+    if g_entry is not None and gstep == -1 and bval is not None:
+        if op in (">", "!=") and bval == 0:
+            trips = g_entry
+        elif op == ">=" and bval == 1:
+            trips = g_entry
+    if g_entry is not None and gstep == 1 and bval is None:
+        bp = None
+        c0 = gnode
+        a_, b_ = strip(kids(c0)[0], casts=True), strip(kids(c0)[1], casts=True)
+        bn = b_ if (a_["kind"] == "DeclRefExpr" and a_["ref"]["name"] == gname) else a_
+        bp = off(bn)
+        if bp is not None and op in ("<", "!="):
+            trips = bp - g_entry
+        elif bp is not None and op == "<=":
+            trips = bp - g_entry + one
+    if trips is None:
+        raise AnalysisBroken("%s: the number of rounds of the heap scan (counter '%s') is not understood" % (f.name, gname))
+    if loop["kind"] == "DoStmt":
+        # the body runs before the first test: the count is only right if the loop is entered with at least one round to go
+        conds = inv.dominating_conditions(cx, f, loop)
+        gtxt = cx.canon(kids(gd)[0]) if gd is not None else gname
+        if not any(cd in ("(%s > 0)" % gtxt, "(%s != 0)" % gtxt, "!(%s == 0)" % gtxt, "(%s >= 1)" % gtxt,
+                          "(%s > 0)" % gname, "(%s != 0)" % gname, "!(%s == 0)" % gname, "(%s >= 1)" % gname) or
+                   re.fullmatch(r"\(.*heap_count (>|!=) 0\)|!\(.*heap_count == 0\)|!cmi_hashheap_is_empty\(.*\)", cd) for cd in conds):
+            raise AnalysisBroken("%s: a do-while heap scan that is not guarded by 'there are entries'" % f.name)
+    last = first + (trips - one).scale(step)
+    return first, last, step
 
 
 def scan_range(m, f, loop, H):
@@ -466,7 +606,10 @@ def check_scans(rep, rule, m, only=None, skip_prints=True):
         if only is not None and f.name not in only:
             continue
         try:
-            first, last, step = scan_range(m, f, loop, H)
+            try:
+                first, last, step = scan_range(m, f, loop, H)
+            except AnalysisBroken:
+                first, last, step = scan_range_general(m, f, loop, H)
         except AnalysisBroken as e:
             # not decidable for this loop: analysis-broken unless some rule reports a concrete finding
             if not hasattr(rep, "deferred_broken"):
